@@ -50,12 +50,16 @@ func (c Config) spacedExactly(delta int64, b uint32) bool {
 }
 
 type opDef struct {
-	req   bool
-	batch uint32
-	tick  int64
+	req    bool
+	batch  uint32
+	tick   int64
+	reload bool // reload the rule with only its maximum queueing time changed (toggles between two values)
 }
 
 func (o opDef) String() string {
+	if o.reload {
+		return "reload(other-queueing-limit)"
+	}
 	if o.req {
 		return fmt.Sprintf("req(%d)", o.batch)
 	}
@@ -72,6 +76,18 @@ type scen struct {
 	havePass bool
 	sleeps   []time.Duration
 	rule     *flow.Rule
+	curMQ    uint32 // maximum queueing time of the rule in force
+	// fresh: the rule was just replaced by a changed one. Whether the queue of the old rule carries over is
+	// not the property's business, so the first request afterwards is judged against both readings
+	fresh bool
+}
+
+// altMQ is the other queueing limit the reload operation switches to.
+func (c Config) altMQ() uint32 {
+	if c.MaxQMs == 0 {
+		return 1000
+	}
+	return 0
 }
 
 func (s *scen) Name() string        { return s.cfg.String() }
@@ -87,6 +103,7 @@ func (s *scen) Reset() {
 	s.sleeps = s.sleeps[:0]
 	env.Clock.OnSleep = func(d time.Duration) { s.sleeps = append(s.sleeps, d) }
 	s.lastPass, s.havePass = 0, false
+	s.curMQ, s.fresh = s.cfg.MaxQMs, false
 	s.rule = &flow.Rule{Resource: "a", TokenCalculateStrategy: flow.Direct, ControlBehavior: flow.Throttling, Threshold: s.cfg.T,
 		MaxQueueingTimeMs: s.cfg.MaxQMs, StatIntervalInMs: s.cfg.IntervalMs}
 	if _, err := flow.LoadRules([]*flow.Rule{s.rule}); err != nil {
@@ -99,15 +116,29 @@ func (s *scen) Reset() {
 
 func (s *scen) Apply(i int) (string, string) {
 	o := s.ops[i]
-	if !o.req {
+	if !o.req && !o.reload {
 		s.now += o.tick
 		env.Clock.SetNs(s.now)
 		return "", ""
 	}
+	if o.reload {
+		if s.curMQ == s.cfg.MaxQMs {
+			s.curMQ = s.cfg.altMQ()
+		} else {
+			s.curMQ = s.cfg.MaxQMs
+		}
+		r := *s.rule
+		r.MaxQueueingTimeMs = s.curMQ
+		if _, err := flow.LoadRules([]*flow.Rule{&r}); err != nil {
+			return "", "reload failed: " + err.Error()
+		}
+		s.fresh = true
+		return "", ""
+	}
 	arrival := s.now
-	maxQ := int64(s.cfg.MaxQMs) * 1e6
+	maxQ := int64(s.curMQ) * 1e6
 	nSleeps := len(s.sleeps)
-	e, blk := sentinel.Entry("a", sentinel.WithBatchCount(o.batch))
+	e, blk := sentinel.Entry("a", batchOpt(o.batch)...)
 	// the clock may have been advanced by the requested sleep
 	s.now = env.Clock.Ns()
 	var wait int64
@@ -150,13 +181,13 @@ func (s *scen) Apply(i int) (string, string) {
 		return "P", fmt.Sprintf("t=+%dns %v asked to wait %dns, more than the maximum queueing time %dns", arrival-T0, o, wait, maxQ)
 	}
 	pass := arrival + wait
-	if s.havePass {
+	if s.havePass && !s.fresh {
 		if !s.cfg.spacedExactly(pass-s.lastPass, o.batch) {
 			return "P", fmt.Sprintf("t=+%dns %v passes at +%dns, only %dns after the previous pass time +%dns (required %v*%dns/%v)",
 				arrival-T0, o, pass-T0, pass-s.lastPass, s.lastPass-T0, o.batch, s.cfg.intervalNs(), s.cfg.T)
 		}
 	}
-	s.lastPass, s.havePass = pass, true
+	s.lastPass, s.havePass, s.fresh = pass, true, false
 	return fmt.Sprintf("P+%d", wait), ""
 }
 
@@ -192,11 +223,11 @@ func (s *scen) Key() string {
 	if c := s.checker(); c != nil {
 		impl = c.VerifLastPassed()
 	}
-	return fmt.Sprintf("%v|%d|%d", s.havePass, rel(s.lastPass), rel(impl))
+	return fmt.Sprintf("%v|%d|%d|%d|%v", s.havePass, rel(s.lastPass), rel(impl), s.curMQ, s.fresh)
 }
 
 func mkOps(cfg Config) []opDef {
-	ops := []opDef{{req: true, batch: 1}, {req: true, batch: 2}}
+	ops := []opDef{{req: true, batch: 1}, {req: true, batch: 2}, {reload: true}}
 	x := int64(1e6)
 	if cfg.T > 0 {
 		x = cfg.spacing(1)
@@ -297,4 +328,13 @@ func replay(c *props.Ctx, raw json.RawMessage) (bool, string) {
 
 func init() {
 	props.Register(&props.Prop{ID: "C10", Run: run, Replay: replay})
+}
+
+// batchOpt passes the batch count the way callers do: a request of one token names no batch count at all, so
+// the default of the (pooled) entry options is part of what is checked.
+func batchOpt(b uint32) []sentinel.EntryOption {
+	if b == 1 {
+		return nil
+	}
+	return []sentinel.EntryOption{sentinel.WithBatchCount(b)}
 }
